@@ -16,20 +16,20 @@ import (
 )
 
 type SpecEnv struct {
-	ex         *Exec
-	cur        *State
-	old        *State
-	vars       map[string]Value
-	results    []Value
-	fn         *ssa.Function
-	fr         *Frame
-	calleeMode bool
-	assigned   []string
-	qn         *int
-	guard      []Term // antecedents in force (assume polarity), for lazily instantiated universals
-	lazyOK     bool   // forallref may be registered as a lazy universal / skolemised
+	ex           *Exec
+	cur          *State
+	old          *State
+	vars         map[string]Value
+	results      []Value
+	fn           *ssa.Function
+	fr           *Frame
+	calleeMode   bool
+	assigned     []string
+	qn           *int
+	guard        []Term // antecedents in force (assume polarity), for lazily instantiated universals
+	lazyOK       bool   // forallref may be registered as a lazy universal / skolemised
 	nameFallback *State // inside old(): locals that did not exist at entry keep their current value
-	pol        int    // +1: formula will be proved, -1: formula will be assumed, 0: unknown polarity
+	pol          int    // +1: formula will be proved, -1: formula will be assumed, 0: unknown polarity
 }
 
 // UntypedInt: integer literal that adapts to its context.
